@@ -271,7 +271,7 @@ Qed.
 Lemma add_consumer_offset_shape cf now st c g t p off order ts :
   add_consumer_offset cf now st c g t p off order ts = Done st RNone \/
   exists cl parts last, get st c = Some cl /\ cf_accept cf g = true /\ too_old cf now ts = false /\
-    get (cl_broker cl) t <> None /\ (last = ts \/ last = g_last (grp_or_empty cl g)) /\
+    get (cl_broker cl) t <> None /\ (last = Z.max ts (g_last (grp_or_empty cl g)) \/ last = g_last (grp_or_empty cl g)) /\
     add_consumer_offset cf now st c g t p off order ts =
       Done (set st c (mkCluster (cl_broker cl)
                         (set (cl_consumer cl) g (mkCgroup (set (g_topics (grp_or_empty cl g)) t parts) last)))) RNone.
@@ -286,7 +286,7 @@ Proof.
   match goal with |- context [ring_step ?a ?b ?x ?d] => destruct (ring_step a b x d) as [w' app] end.
   eexists cl, _, _. split; [reflexivity|]. split; [reflexivity|]. split; [reflexivity|].
   split; [apply (get_broker_offset_cnt _ _ _ _ _ Hb); apply Z.eqb_neq; exact Hz|].
-  split; [|reflexivity]. destruct app; [left|right]; reflexivity.
+  split; [|reflexivity]. match goal with |- context [commit_stored ?a ?b] => destruct (commit_stored a b) end; [left|right]; reflexivity.
 Qed.
 
 Lemma add_consumer_owner_shape cf st c g t p owner client :
@@ -324,16 +324,20 @@ Proof.
   right. exists cl, grp. split; [reflexivity|]. split; [reflexivity|]. split; [exact Hg|reflexivity].
 Qed.
 
+Definition is_nil {A} (l : list A) : bool := match l with [] => true | _ => false end.
+
+(* deleting topic t from a group with these topics takes the group with it: t is one of its topics, and the only one *)
+Definition drops {V} (tops : amap V) (t : Z) : bool :=
+  is_nil (remove tops t) && match get tops t with Some _ => true | None => false end.
+
 (* the deletion handlers as one expression *)
 Definition dg_cons (cons : amap cgroup) (g t : Z) : amap cgroup :=
   match get cons g with
   | None => cons
   | Some grp =>
       if t =? 0 then remove cons g
-      else match remove (g_topics grp) t with
-           | [] => remove cons g
-           | tops => set cons g (mkCgroup tops (g_last grp))
-           end
+      else if drops (g_topics grp) t then remove cons g
+           else set cons g (mkCgroup (remove (g_topics grp) t) (g_last grp))
   end.
 
 Definition dt_group (t : Z) (grp : cgroup) : cgroup := mkCgroup (remove (g_topics grp) t) (g_last grp).
@@ -352,7 +356,8 @@ Lemma delete_group_eq st c g t :
 Proof.
   unfold delete_group, dg_cons. destruct (get st c) as [cl|]; [|reflexivity].
   destruct (get (cl_consumer cl) g) as [grp|]; [|reflexivity].
-  destruct (t =? 0); [reflexivity|]. destruct (remove (g_topics grp) t); reflexivity.
+  destruct (t =? 0); [reflexivity|]. unfold drops.
+  destruct (remove (g_topics grp) t); cbn [is_nil andb]; [destruct (get (g_topics grp) t)|]; reflexivity.
 Qed.
 
 Lemma delete_topic_eq st c t :
@@ -396,8 +401,8 @@ Proof.
   intros Hwf. pose proof Hwf as [Hb [Hc Hg]]. unfold dg_cons.
   destruct (get (cl_consumer cl) g) as [grp|] eqn:E.
   - destruct (t =? 0); [apply wf_cluster_remove_group; assumption|].
-    destruct (remove (g_topics grp) t) as [|kv r] eqn:Er; [apply wf_cluster_remove_group; assumption|].
-    apply wf_cluster_set_group; [assumption|assumption|]. cbn [g_topics]. rewrite <- Er.
+    destruct (drops (g_topics grp) t); [apply wf_cluster_remove_group; assumption|].
+    apply wf_cluster_set_group; [assumption|assumption|]. cbn [g_topics].
     apply nodup_remove. exact (Hg _ _ E).
   - split; [exact Hb|]. split; [exact Hc|exact Hg].
 Qed.
@@ -496,7 +501,6 @@ Proof. intros Hnd. apply run_wf. apply wf_init_state. exact Hnd. Qed.
 (* 4. The deletion handlers at the level of [get]                                              *)
 (* ------------------------------------------------------------------------------------------ *)
 
-Definition is_nil {A} (l : list A) : bool := match l with [] => true | _ => false end.
 
 Lemma cluster_eta cl : mkCluster (cl_broker cl) (cl_consumer cl) = cl.
 Proof. destruct cl; reflexivity. Qed.
@@ -561,7 +565,7 @@ Lemma get_dg_cons_other cons g t g' : g' <> g -> get (dg_cons cons g t) g' = get
 Proof.
   intros Hne. unfold dg_cons. destruct (get cons g) as [grp|]; [|reflexivity].
   destruct (t =? 0); [apply get_remove_neq; auto|].
-  destruct (remove (g_topics grp) t); [apply get_remove_neq; auto|apply get_set_neq; auto].
+  destruct (drops (g_topics grp) t); [apply get_remove_neq; auto|apply get_set_neq; auto].
 Qed.
 
 Lemma get_dg_cons_whole cons g : get (dg_cons cons g 0) g = None.
@@ -571,13 +575,13 @@ Lemma get_dg_cons_topic cons g t : t <> 0 ->
   get (dg_cons cons g t) g =
   match get cons g with
   | None => None
-  | Some grp => if is_nil (remove (g_topics grp) t) then None
+  | Some grp => if drops (g_topics grp) t then None
                 else Some (mkCgroup (remove (g_topics grp) t) (g_last grp))
   end.
 Proof.
   intros Ht. unfold dg_cons. destruct (get cons g) as [grp|] eqn:E; [|exact E].
   apply Z.eqb_neq in Ht. rewrite Ht.
-  destruct (remove (g_topics grp) t); cbn [is_nil]; [apply get_remove_eq|apply get_set_eq].
+  destruct (drops (g_topics grp) t); [apply get_remove_eq|apply get_set_eq].
 Qed.
 
 Lemma is_nil_false_other {V} (m : amap V) k : is_nil (remove m k) = false <-> exists k', k' <> k /\ get m k' <> None.
@@ -586,6 +590,19 @@ Proof.
   - intros H. apply remove_not_nil_other. intros E. rewrite E in H. discriminate.
   - intros [k' [Hne Hg]]. destruct (remove m k) eqn:E; [|reflexivity].
     exfalso. apply Hg. exact (remove_nil_get _ _ _ E Hne).
+Qed.
+
+Lemma drops_false {V} (m : amap V) k :
+  drops m k = false <-> (exists k', k' <> k /\ get m k' <> None) \/ get m k = None.
+Proof.
+  unfold drops. rewrite andb_false_iff, is_nil_false_other. destruct (get m k); split; intros [H|H]; auto; discriminate.
+Qed.
+
+Lemma drops_true {V} (m : amap V) k :
+  drops m k = true -> get m k <> None /\ forall k', k' <> k -> get m k' = None.
+Proof.
+  unfold drops. intros H. apply andb_true_iff in H. destruct H as [Hn Hg]. split; [destruct (get m k); [discriminate|discriminate Hg]|].
+  intros k' Hne. destruct (remove m k) eqn:E; [|discriminate Hn]. exact (remove_nil_get _ _ _ E Hne).
 Qed.
 
 Lemma is_nil_remove {V} (m : amap V) k : is_nil (remove m k) = forallb (fun x => x =? k) (keys m).
@@ -840,7 +857,7 @@ Proof.
   destruct (get s c) as [cl|] eqn:Hc; cbn [option_map cluster_reply cl_consumer cl_broker]; [|cbn; tauto].
   split.
   - rewrite get_dg_cons_topic by exact Ht. destruct (get (cl_consumer cl) g) as [grp|]; [|cbn; tauto].
-    destruct (is_nil (remove (g_topics grp) t)); [cbn; tauto|]. cbn [g_last].
+    destruct (drops (g_topics grp) t); [cbn; tauto|]. cbn [g_last].
     destruct (expired cf now' (g_last grp)); [cbn; tauto|].
     match goal with |- context [fetch_topics_lags ?a ?b] => destruct (fetch_topics_lags a b) as [l|] eqn:El end;
       cbn [option_map names]; [|tauto].
@@ -849,7 +866,7 @@ Proof.
   - cbn [names]. pose proof (wf_dg_cons cl g t (Hall _ _ Hc)) as [_ [Hnd' _]]. cbn [cl_consumer] in Hnd'.
     rewrite (in_for_topic _ _ _ Hnd'). unfold consumes. rewrite get_dg_cons_topic by exact Ht.
     destruct (get (cl_consumer cl) g) as [grp|]; [|intros [v [H _]]; discriminate].
-    destruct (is_nil (remove (g_topics grp) t)); [intros [v [H _]]; discriminate|].
+    destruct (drops (g_topics grp) t); [intros [v [H _]]; discriminate|].
     intros [v [H Hv]]. injection H as <-. cbn [g_topics] in Hv. apply Hv. apply get_remove_eq.
 Qed.
 
@@ -858,12 +875,10 @@ Lemma consumes_dg_topic cons g t x t' :
 Proof.
   intros Ht. unfold consumes. destruct (Z.eq_dec x g) as [->|Hne].
   - rewrite get_dg_cons_topic by exact Ht. destruct (get cons g) as [grp|] eqn:Eg.
-    + destruct (is_nil (remove (g_topics grp) t)) eqn:En.
+    + destruct (drops (g_topics grp) t) eqn:En.
       * split; [intros [v [H _]]; discriminate|].
         intros [[v [Hv Hg]] Hne]. injection Hv as <-. exfalso.
-        assert (Hf : is_nil (remove (g_topics grp) t) = false).
-        { apply is_nil_false_other. exists t'. split; [apply Hne; reflexivity|exact Hg]. }
-        congruence.
+        destruct (drops_true _ _ En) as [_ Hno]. apply Hg. apply Hno. apply Hne. reflexivity.
       * split.
         -- intros [v [Hv Hg]]. injection Hv as <-. cbn [g_topics] in Hg. rewrite get_remove in Hg.
            destruct (t =? t') eqn:E; [contradiction Hg; reflexivity|]. apply Z.eqb_neq in E.
@@ -879,7 +894,8 @@ Theorem delete_group_topic_listing cf now now' s c g t :
   let s' := after cf now s (DeleteGroup c g t) in
   (obs cf now' s' (FetchConsumers c) = Some RNil <-> obs cf now' s (FetchConsumers c) = Some RNil) /\
   (forall x, In x (names (obs cf now' s' (FetchConsumers c))) <->
-             In x (names (obs cf now' s (FetchConsumers c))) /\ (x = g -> has_other_topic s c g t)) /\
+             In x (names (obs cf now' s (FetchConsumers c))) /\
+             (x = g -> has_other_topic s c g t \/ absent_group_topic s c g t)) /\
   (forall t',
      (obs cf now' s' (FetchConsumersForTopic c t') = Some RNil <-> obs cf now' s (FetchConsumersForTopic c t') = Some RNil) /\
      (forall x, In x (names (obs cf now' s' (FetchConsumersForTopic c t'))) <->
@@ -892,15 +908,17 @@ Proof.
   - split; [split; discriminate|]. split.
     + intros x. rewrite <- !get_in_keys. destruct (Z.eq_dec x g) as [->|Hne].
       * rewrite get_dg_cons_topic by exact Ht. destruct (get (cl_consumer cl) g) as [grp|] eqn:Eg.
-        -- destruct (is_nil (remove (g_topics grp) t)) eqn:En.
-           ++ split; [contradiction|]. intros [_ H]. destruct (H eq_refl) as [cl0 [grp0 [t' [Hc0 [Hg0 [Hne Ht']]]]]].
-              rewrite Hc in Hc0. injection Hc0 as <-. rewrite Eg in Hg0. injection Hg0 as <-. exfalso.
-              assert (Hf : is_nil (remove (g_topics grp) t) = false).
-              { apply is_nil_false_other. exists t'. split; assumption. }
-              congruence.
+        -- destruct (drops (g_topics grp) t) eqn:En.
+           ++ split; [contradiction|]. intros [_ H]. exfalso. destruct (drops_true _ _ En) as [Hhas Hno].
+              destruct (H eq_refl) as [[cl0 [grp0 [t' [Hc0 [Hg0 [Hne Ht']]]]]]|Habs].
+              ** rewrite Hc in Hc0. injection Hc0 as <-. rewrite Eg in Hg0. injection Hg0 as <-.
+                 apply Ht'. apply Hno. exact Hne.
+              ** apply Hhas. exact (Habs _ _ Hc Eg).
            ++ split; [|discriminate]. intros _. split; [discriminate|]. intros _.
-              apply is_nil_false_other in En. destruct En as [t' [Hne Ht']].
-              exists cl, grp, t'. repeat split; assumption.
+              apply drops_false in En. destruct En as [[t' [Hne Ht']]|Hnone].
+              ** left. exists cl, grp, t'. repeat split; assumption.
+              ** right. intros cl0 grp0 Hc0 Hg0. rewrite Hc in Hc0. injection Hc0 as <-. rewrite Eg in Hg0.
+                 injection Hg0 as <-. exact Hnone.
         -- split; [contradiction|intros [H _]; contradiction].
       * rewrite get_dg_cons_other by exact Hne. split; [intros H; split; [exact H|intros; contradiction]|tauto].
     + intros t'. rewrite (obs_after_dg _ _ _ _ _ _ _ (FetchConsumersForTopic c t') eq_refl eq_refl).
@@ -915,12 +933,21 @@ Proof.
     cbn. tauto.
 Qed.
 
+Lemma existsb_keys {V} (m : amap V) t :
+  existsb (fun k => k =? t) (keys m) = match get m t with Some _ => true | None => false end.
+Proof.
+  unfold keys. induction m as [|[k v] r IH]; cbn; [reflexivity|]. destruct (k =? t); [reflexivity|exact IH].
+Qed.
+
+Lemma drops_keys {V W} (m : amap V) (m' : amap W) k : keys m = keys m' -> drops m k = drops m' k.
+Proof. intros H. unfold drops. rewrite !is_nil_remove, <- !existsb_keys, H. reflexivity. Qed.
+
 (* the group's remaining topics, partitions included, are reported exactly as before *)
 Theorem delete_group_topic_detail cf now now' s c g t :
   t <> 0 ->
   let s' := after cf now s (DeleteGroup c g t) in
   (forall l, obs cf now' s (FetchConsumer c g) = Some (RConsumer l) ->
-     obs cf now' s' (FetchConsumer c g) = if is_nil (remove l t) then Some RNil else Some (RConsumer (remove l t))) /\
+     obs cf now' s' (FetchConsumer c g) = if drops l t then Some RNil else Some (RConsumer (remove l t))) /\
   (obs cf now' s (FetchConsumer c g) = Some RNil -> obs cf now' s' (FetchConsumer c g) = Some RNil).
 Proof.
   intros Ht s'. unfold s'.
@@ -935,13 +962,13 @@ Proof.
     destruct (fetch_topics_lags (cl_broker cl) (snap_of (mkCgroup tops lst))) as [l0|] eqn:El; cbn [option_map];
       [|discriminate].
     intros H. injection H as <-.
-    assert (Hn : is_nil (remove l0 t) = is_nil (remove tops t)).
-    { rewrite !is_nil_remove. f_equal. unfold keys at 1. rewrite (fetch_topics_lags_keys _ _ _ El). apply keys_snap_of. }
-    rewrite Hn. destruct (is_nil (remove tops t)); [reflexivity|]. cbn [g_last g_topics]. rewrite He.
+    assert (Hn : drops l0 t = drops tops t).
+    { apply drops_keys. unfold keys at 1. rewrite (fetch_topics_lags_keys _ _ _ El). apply keys_snap_of. }
+    rewrite Hn. destruct (drops tops t); [reflexivity|]. cbn [g_last g_topics]. rewrite He.
     rewrite snap_of_remove.
     rewrite (fetch_topics_lags_remove _ _ _ t El). reflexivity.
   - destruct (expired cf now' lst) eqn:He.
-    + intros _. destruct (is_nil (remove tops t)); [reflexivity|]. cbn [g_last g_topics]. rewrite He. reflexivity.
+    + intros _. destruct (drops tops t); [reflexivity|]. cbn [g_last g_topics]. rewrite He. reflexivity.
     + destruct (fetch_topics_lags (cl_broker cl) (snap_of (mkCgroup tops lst))); cbn [option_map]; discriminate.
 Qed.
 
@@ -1354,7 +1381,7 @@ Proof.
     destruct (Z.eq_dec g g0) as [->|Hne]; [|rewrite get_dg_cons_other in Hg by exact Hne; exact (Hold _ Hg)].
     destruct (Z.eq_dec t0 0) as [->|Ht0]; [rewrite get_dg_cons_whole in Hg; discriminate|].
     rewrite get_dg_cons_topic in Hg by exact Ht0. rewrite Eg0 in Hg.
-    destruct (is_nil (remove (g_topics c1) t0)); [discriminate|]. injection Hg as <-. cbn [g_topics].
+    destruct (drops (g_topics c1) t0); [discriminate|]. injection Hg as <-. cbn [g_topics].
     rewrite get_remove. destruct (t0 =? t); [reflexivity|]. exact (Hold _ Eg0).
   - intros H. injection H as <- _. exact Ha.
   - destruct (get s c0); intros H; injection H as <- _; exact Ha.
@@ -1406,7 +1433,7 @@ Proof.
   intros Ht cl grp. rewrite get_after_delete_group, Z.eqb_refl. destruct (get s c) as [cl0|]; [|discriminate].
   cbn [option_map]. intros H. injection H as <-. cbn [cl_consumer]. rewrite get_dg_cons_topic by exact Ht.
   destruct (get (cl_consumer cl0) g) as [grp0|]; [|discriminate].
-  destruct (is_nil (remove (g_topics grp0) t)); [discriminate|]. intros H. injection H as <-. cbn [g_topics].
+  destruct (drops (g_topics grp0) t); [discriminate|]. intros H. injection H as <-. cbn [g_topics].
   apply get_remove_eq.
 Qed.
 
@@ -1447,9 +1474,9 @@ Lemma in_dg_cons cons g0 t0 g grp' :
 Proof.
   unfold dg_cons. destruct (get cons g0) as [grp|] eqn:E; [|auto].
   destruct (t0 =? 0); [intros H; left; exact (in_remove _ _ _ H)|].
-  destruct (remove (g_topics grp) t0) as [|x r] eqn:Er; [intros H; left; exact (in_remove _ _ _ H)|].
+  destruct (drops (g_topics grp) t0); [intros H; left; exact (in_remove _ _ _ H)|].
   intros H. apply in_set_cases in H. destruct H as [H|H]; [|left; exact H].
-  right. injection H as _ ->. exists grp. split; [reflexivity|]. rewrite Er. reflexivity.
+  right. injection H as _ ->. exists grp. split; reflexivity.
 Qed.
 
 Lemma grp_or_empty_none_in cl g0 t :
@@ -1801,32 +1828,34 @@ Proof.
 Qed.
 
 (* ------------------------------------------------------------------------------------------ *)
-(* 11. Where the code is NOT exact (recorded findings of C09), and the storage accept predicate *)
+(* 11. Exactness of expiry and of delete-group-topic (after the two repairs), and the accept predicate *)
 (* ------------------------------------------------------------------------------------------ *)
 
-(* 11.1 lastCommit is the timestamp of the most recently APPENDED commit (of any partition), not of the newest one ------- *)
+(* 11.1 lastCommit is the newest timestamp among the commits the group has stored; it never moves backwards ------------- *)
 
 (* the timestamps of all commits the group currently stores *)
+Definition ring_ts (w : ring) : list Z := map co_ts (somes w).
+Definition part_ts (pr : cpartition) : list Z := match pr_ring pr with Some w => ring_ts w | None => [] end.
 Definition stored_ts (grp : cgroup) : list Z :=
-  flat_map (fun tp => flat_map (fun pr => match pr_ring pr with Some w => map co_ts (somes w) | None => [] end) (snd tp))
-           (g_topics grp).
+  flat_map (fun tp => flat_map part_ts (snd tp)) (g_topics grp).
 
-(* what a commit does to g_last: it becomes the commit's timestamp (append) or stays what it was *)
+(* what a commit does to g_last: raised to the commit's timestamp when the ring stores the commit, else unchanged *)
 Theorem g_last_after_commit cf now s c g t p off order ts s' rep cl' grp' :
   step cf now s (SetConsumerOffset c g t p off order ts) = Done s' rep ->
   get s' c = Some cl' -> get (cl_consumer cl') g = Some grp' ->
-  g_last grp' = ts \/ exists cl, get s c = Some cl /\ g_last grp' = g_last (grp_or_empty cl g).
+  exists cl, get s c = Some cl /\
+    (g_last grp' = Z.max ts (g_last (grp_or_empty cl g)) \/ g_last grp' = g_last (grp_or_empty cl g)).
 Proof.
   cbn [step].
   destruct (add_consumer_offset_shape cf now s c g t p off order ts) as [E|[cl [parts [lst [Hc [_ [_ [_ [Hl E]]]]]]]]];
     rewrite E; intros H; injection H as <- _.
-  - intros Hc' Hg'. right. exists cl'. split; [exact Hc'|]. unfold grp_or_empty. rewrite Hg'. reflexivity.
+  - intros Hc' Hg'. exists cl'. split; [exact Hc'|]. right. unfold grp_or_empty. rewrite Hg'. reflexivity.
   - rewrite get_set_eq. intros H. injection H as <-. cbn [cl_consumer]. rewrite get_set_eq. intros H. injection H as <-.
-    cbn [g_last]. destruct Hl as [->| ->]; [left; reflexivity|right; exists cl; split; [exact Hc|reflexivity]].
+    cbn [g_last]. exists cl. split; [exact Hc|]. exact Hl.
 Qed.
 
-(* inside the int64 guard a group is answered not-found exactly when g_last is older than the cut-off ... *)
-Theorem purged_iff_last_appended_expired cf now s c g cl grp :
+(* inside the int64 guard a group is answered not-found exactly when g_last is older than the cut-off *)
+Theorem purged_iff_last_expired cf now s c g cl grp :
   in_i64 ((now - cf_expire cf) * 1000) ->
   get s c = Some cl -> get (cl_consumer cl) g = Some grp ->
   (obs cf now s (FetchConsumer c g) = Some RNil <-> g_last grp < (now - cf_expire cf) * 1000).
@@ -1837,82 +1866,163 @@ Proof.
   destruct (fetch_topics_lags (cl_broker cl) (snap_of grp)); cbn [option_map]; discriminate.
 Qed.
 
-(* ... which is NOT "every stored commit is older than the cut-off": expire-group 1000 s; at 2000 s partition 0 commits with
-   timestamp 1 900 000 and then partition 1 gets its first commit, timestamp 1 100 000 (an append, so lastCommit goes BACK);
-   at 2200 s (cut-off 1 200 000) the group is reported not found and unlisted although it stores a commit 300 s old *)
+(* g_last never decreases while the group exists, whatever the request *)
+Theorem g_last_monotone cf now s r s' rep c g cl grp cl' grp' :
+  step cf now s r = Done s' rep ->
+  get s c = Some cl -> get (cl_consumer cl) g = Some grp ->
+  get s' c = Some cl' -> get (cl_consumer cl') g = Some grp' ->
+  g_last grp <= g_last grp'.
+Proof.
+  intros Hs Hc Hg.
+  assert (Hsame : forall cl1, get (set s c cl1) c = Some cl' -> cl' = cl1) by (intros cl1 H; rewrite get_set_eq in H; congruence).
+  assert (Hkeep : forall s1, s1 = s -> get s1 c = Some cl' -> get (cl_consumer cl') g = Some grp' -> g_last grp <= g_last grp').
+  { intros s1 -> H1 H2. rewrite Hc in H1. injection H1 as <-. rewrite Hg in H2. injection H2 as <-. lia. }
+  assert (Hoth : forall s1 c0 cl1, c0 <> c -> s1 = set s c0 cl1 -> get s1 c = Some cl' -> get (cl_consumer cl') g = Some grp' ->
+                 g_last grp <= g_last grp').
+  { intros s1 c0 cl1 Hne -> H1 H2. rewrite get_set_neq in H1 by exact Hne. rewrite Hc in H1. injection H1 as <-.
+    rewrite Hg in H2. injection H2 as <-. lia. }
+  assert (Hgoe : forall g0, g0 = g -> g_last (grp_or_empty cl g0) = g_last grp).
+  { intros g0 ->. unfold grp_or_empty. rewrite Hg. reflexivity. }
+  destruct r; cbn [step] in Hs.
+  - destruct (add_broker_offset_shape cf s c0 t p cnt off) as [E|[E|[cl0 [tl [Hc0 E]]]]]; rewrite E in Hs;
+      [injection Hs as <- _; apply (Hkeep _ eq_refl)|discriminate|injection Hs as <- _].
+    destruct (Z.eq_dec c0 c) as [->|Hne]; [|eapply (Hoth _ _ _ Hne eq_refl)].
+    rewrite Hc in Hc0. injection Hc0 as <-. rewrite get_set_eq. intros H. injection H as <-. cbn [cl_consumer].
+    rewrite Hg. intros H. injection H as <-. lia.
+  - destruct (add_consumer_offset_shape cf now s c0 g0 t p off order ts) as [E|[cl0 [parts [lst [Hc0 [_ [_ [_ [Hl E]]]]]]]]];
+      rewrite E in Hs; injection Hs as <- _; [apply (Hkeep _ eq_refl)|].
+    destruct (Z.eq_dec c0 c) as [->|Hne]; [|eapply (Hoth _ _ _ Hne eq_refl)].
+    rewrite Hc in Hc0. injection Hc0 as <-. rewrite get_set_eq. intros H. injection H as <-. cbn [cl_consumer].
+    rewrite get_set. destruct (g0 =? g) eqn:Eg; [|rewrite Hg; intros H; injection H as <-; lia].
+    apply Z.eqb_eq in Eg. intros H. injection H as <-. cbn [g_last]. rewrite (Hgoe _ Eg) in Hl. lia.
+  - destruct (add_consumer_owner_shape cf s c0 g0 t p owner client) as [E|[cl0 [Hc0 [_ [E|[parts [_ E]]]]]]];
+      rewrite E in Hs; injection Hs as <- _; [apply (Hkeep _ eq_refl)| |];
+      (destruct (Z.eq_dec c0 c) as [->|Hne]; [|eapply (Hoth _ _ _ Hne eq_refl)]);
+      rewrite Hc in Hc0; injection Hc0 as <-; rewrite get_set_eq; intros H; injection H as <-; cbn [cl_consumer];
+      rewrite get_set; (destruct (g0 =? g) eqn:Eg; [|rewrite Hg; intros H; injection H as <-; lia]);
+      apply Z.eqb_eq in Eg; intros H; injection H as <-; cbn [g_last]; rewrite (Hgoe _ Eg); lia.
+  - destruct (clear_consumer_owners_shape cf s c0 g0) as [E|[cl0 [grp0 [Hc0 [_ [Hg0 E]]]]]];
+      rewrite E in Hs; injection Hs as <- _; [apply (Hkeep _ eq_refl)|].
+    destruct (Z.eq_dec c0 c) as [->|Hne]; [|eapply (Hoth _ _ _ Hne eq_refl)].
+    rewrite Hc in Hc0. injection Hc0 as <-. rewrite get_set_eq. intros H. injection H as <-. cbn [cl_consumer].
+    rewrite get_set. destruct (g0 =? g) eqn:Eg; [|rewrite Hg; intros H; injection H as <-; lia].
+    apply Z.eqb_eq in Eg. subst g0. rewrite Hg in Hg0. injection Hg0 as <-. intros H. injection H as <-. cbn. lia.
+  - rewrite delete_topic_eq in Hs. injection Hs as <- _. destruct (Z.eq_dec c0 c) as [->|Hne].
+    + rewrite Hc, get_set_eq. intros H. injection H as <-. unfold dt_cluster. cbn [cl_consumer]. rewrite get_map_vals, Hg.
+      cbn [option_map]. intros H. injection H as <-. cbn. lia.
+    + destruct (get s c0) as [cl0|]; [eapply (Hoth _ _ _ Hne eq_refl)|apply (Hkeep _ eq_refl)].
+  - rewrite delete_group_eq in Hs. injection Hs as <- _. destruct (Z.eq_dec c0 c) as [->|Hne].
+    + rewrite Hc. destruct (get (cl_consumer cl) g0) eqn:Eg0; [|apply (Hkeep _ eq_refl)].
+      rewrite get_set_eq. intros H. injection H as <-. cbn [cl_consumer].
+      destruct (Z.eq_dec g g0) as [->|Hng]; [|rewrite get_dg_cons_other by exact Hng; rewrite Hg; intros H; injection H as <-; lia].
+      destruct (Z.eq_dec t 0) as [->|Ht0]; [rewrite get_dg_cons_whole; discriminate|].
+      rewrite get_dg_cons_topic by exact Ht0. rewrite Hg. destruct (drops (g_topics grp) t); [discriminate|].
+      intros H. injection H as <-. cbn. lia.
+    + destruct (get s c0) as [cl0|]; [destruct (get (cl_consumer cl0) g0); [eapply (Hoth _ _ _ Hne eq_refl)|apply (Hkeep _ eq_refl)]|apply (Hkeep _ eq_refl)].
+  - injection Hs as <- _. apply (Hkeep _ eq_refl).
+  - destruct (get s c0); injection Hs as <- _; apply (Hkeep _ eq_refl).
+  - destruct (get s c0); injection Hs as <- _; apply (Hkeep _ eq_refl).
+  - apply fetch_consumer_state in Hs. destruct Hs as [->|[cl0 [grp0 [Hc0 [Hg0 [_ [_ ->]]]]]]]; [apply (Hkeep _ eq_refl)|].
+    destruct (Z.eq_dec c0 c) as [->|Hne]; [|eapply (Hoth _ _ _ Hne eq_refl)].
+    rewrite Hc in Hc0. injection Hc0 as <-. rewrite get_set_eq. intros H. injection H as <-. cbn [cl_consumer].
+    rewrite get_remove. destruct (g0 =? g); [discriminate|]. rewrite Hg. intros H. injection H as <-. lia.
+  - unfold fetch_topic in Hs. destruct (get s c0) as [cl0|]; [destruct (get (cl_broker cl0) t)|]; injection Hs as <- _; apply (Hkeep _ eq_refl).
+  - unfold fetch_consumers_for_topic in Hs. destruct (get s c0); injection Hs as <- _; apply (Hkeep _ eq_refl).
+Qed.
+
+(* before the repair (documentation; replayed on the real code then, findings/C09.json): lastCommit was overwritten by every
+   APPENDED commit, so the first commit of partition 1 (timestamp 1 100 000) after partition 0's (1 900 000) moved it back and
+   the group was purged at 2200 s (expire-group 1000 s, cut-off 1 200 000) with a 300 s old commit stored.  The repaired rule
+   keeps 1 900 000 and the group is reported. *)
+Definition last_commit_before_fix (appended : bool) (ts last : Z) : Z := if appended then ts else last.
 Definition lc_cf : config := mkConfig 3 1000 0 (fun _ => true).
 Definition lc_hist : list (Z * req) :=
   [ (2000, SetBrokerOffset 1 1 0 2 100); (2000, SetBrokerOffset 1 1 1 2 100);
     (2000, SetConsumerOffset 1 1 1 0 90 1 1900000); (2000, SetConsumerOffset 1 1 1 1 90 1 1100000) ].
 Definition lc_state : state := match run lc_cf (init_state [1]) lc_hist with Some (s, _) => s | None => [] end.
 
-Theorem not_expired_but_purged_refuted :
-  exists cf cls h s reps now c g cl grp ts,
-    NoDup cls /\ run cf (init_state cls) h = Some (s, reps) /\ in_i64 ((now - cf_expire cf) * 1000) /\
-    get s c = Some cl /\ get (cl_consumer cl) g = Some grp /\
-    In ts (stored_ts grp) /\ ~ ts < (now - cf_expire cf) * 1000 /\
-    obs cf now s (FetchConsumer c g) = Some RNil /\
-    ~ In g (names (obs cf now (after cf now s (FetchConsumer c g)) (FetchConsumers c))).
+Theorem not_expired_but_purged_before_fix :
+  expired lc_cf 2200 (last_commit_before_fix true 1100000 (last_commit_before_fix true 1900000 0)) = true /\
+  in_i64 ((2200 - cf_expire lc_cf) * 1000) /\
+  run lc_cf (init_state [1]) lc_hist = Some (lc_state, repeat RNone 4) /\
+  (exists cl grp, get lc_state 1 = Some cl /\ get (cl_consumer cl) 1 = Some grp /\
+     In 1900000 (stored_ts grp) /\ ~ 1900000 < (2200 - cf_expire lc_cf) * 1000 /\ g_last grp = 1900000) /\
+  names (obs lc_cf 2200 lc_state (FetchConsumer 1 1)) = [1] /\
+  In 1 (names (obs lc_cf 2200 (after lc_cf 2200 lc_state (FetchConsumer 1 1)) (FetchConsumers 1))).
 Proof.
-  exists lc_cf, [1], lc_hist, lc_state, (repeat RNone 4), 2200, 1, 1.
-  assert (Hr : run lc_cf (init_state [1]) lc_hist = Some (lc_state, repeat RNone 4)) by (vm_compute; reflexivity).
-  destruct (get lc_state 1) as [cl|] eqn:Hc; [|vm_compute in Hc; discriminate].
-  destruct (get (cl_consumer cl) 1) as [grp|] eqn:Hg; [|vm_compute in Hc; injection Hc as <-; vm_compute in Hg; discriminate].
-  exists cl, grp, 1900000.
-  split; [repeat constructor; intros []|]. split; [exact Hr|].
-  split; [unfold in_i64; vm_compute; split; [discriminate|reflexivity]|].
-  split; [first [reflexivity|exact Hc]|]. split; [first [reflexivity|exact Hg]|].
-  vm_compute in Hc. injection Hc as <-. vm_compute in Hg. injection Hg as <-.
-  split; [vm_compute; tauto|]. split; [vm_compute; discriminate|].
-  split; [vm_compute; reflexivity|]. vm_compute. tauto.
+  split; [vm_compute; reflexivity|]. split; [unfold in_i64; vm_compute; split; [discriminate|reflexivity]|].
+  split; [vm_compute; reflexivity|]. split.
+  - destruct (get lc_state 1) as [cl|] eqn:Hc; [|vm_compute in Hc; discriminate].
+    destruct (get (cl_consumer cl) 1) as [grp|] eqn:Hg; [|vm_compute in Hc; injection Hc as <-; vm_compute in Hg; discriminate].
+    exists cl, grp. split; [reflexivity|]. split; [first [reflexivity|exact Hg]|].
+    vm_compute in Hc. injection Hc as <-. vm_compute in Hg. injection Hg as <-.
+    split; [vm_compute; tauto|]. split; [vm_compute; discriminate|reflexivity].
+  - split; [vm_compute; reflexivity|]. vm_compute. tauto.
 Qed.
 
-(* 11.2 delete-group-topic for a topic the group does not consume ------------------------------------------------------------ *)
+(* 11.2 delete-group-topic for a topic the group does not consume changes nothing ---------------------------------------- *)
 
-(* a group that has topics is unaffected ... *)
-Theorem delete_foreign_topic_keeps_nonempty_group cf now now' s c g t cl grp :
-  wf_state s -> t <> 0 ->
-  get s c = Some cl -> get (cl_consumer cl) g = Some grp -> get (g_topics grp) t = None -> g_topics grp <> [] ->
+Lemma remove_absent {V} (m : amap V) k : get m k = None -> remove m k = m.
+Proof.
+  unfold remove. induction m as [|[k' v] r IH]; cbn; [reflexivity|]. destruct (k' =? k); [discriminate|].
+  intros H. cbn. f_equal. exact (IH H).
+Qed.
+
+Theorem delete_foreign_topic_changes_nothing cf now now' s c g t :
+  wf_state s -> t <> 0 -> absent_group_topic s c g t ->
   let s' := after cf now s (DeleteGroup c g t) in
   (forall x, In x (names (obs cf now' s' (FetchConsumers c))) <-> In x (names (obs cf now' s (FetchConsumers c)))) /\
-  obs cf now' s' (FetchConsumer c g) = obs cf now' s (FetchConsumer c g).
+  obs cf now' s' (FetchConsumer c g) = obs cf now' s (FetchConsumer c g) /\
+  (forall t' x, In x (names (obs cf now' s' (FetchConsumersForTopic c t'))) <->
+                In x (names (obs cf now' s (FetchConsumersForTopic c t')))).
 Proof.
-  intros Hwf Ht Hc Hg Hf Hne s'. split.
-  - intros x. destruct (delete_group_topic_listing cf now now' s c g t Hwf Ht) as [_ [Hl _]]. fold s' in Hl. rewrite Hl.
-    split; [tauto|]. intros Hin. split; [exact Hin|]. intros _.
-    destruct (g_topics grp) as [|[t' v] r] eqn:Et; [contradiction|].
-    exists cl, grp, t'. split; [exact Hc|]. split; [exact Hg|].
-    assert (Hg' : get (g_topics grp) t' = Some v) by (rewrite Et; cbn; rewrite Z.eqb_refl; reflexivity).
-    split; [|rewrite Hg'; discriminate]. cbn in Hf. destruct (t' =? t) eqn:E; [discriminate|]. apply Z.eqb_neq. exact E.
+  intros Hwf Ht Habs s'. destruct (delete_group_topic_listing cf now now' s c g t Hwf Ht) as [_ [Hl Hu]]. fold s' in Hl, Hu.
+  split; [|split].
+  - intros x. rewrite Hl. split; [tauto|]. intros H. split; [exact H|]. intros _. right. exact Habs.
   - unfold s'. rewrite (obs_after_dg _ _ _ _ _ _ _ (FetchConsumer c g) eq_refl eq_refl).
-    rewrite (obs_cluster _ _ s (FetchConsumer c g) c eq_refl eq_refl), Hc.
-    cbn [option_map cluster_reply cl_consumer cl_broker]. rewrite get_dg_cons_topic by exact Ht. rewrite Hg.
-    assert (Hr : remove (g_topics grp) t = g_topics grp).
-    { unfold remove. clear - Hf. induction (g_topics grp) as [|[k v] r IH]; [reflexivity|]. cbn in Hf |- *.
-      destruct (k =? t); [discriminate|]. cbn. f_equal. apply IH. exact Hf. }
-    rewrite Hr. destruct (g_topics grp) eqn:Et; [contradiction|]. cbn [is_nil]. rewrite <- Et. destruct grp; reflexivity.
+    rewrite (obs_cluster _ _ s (FetchConsumer c g) c eq_refl eq_refl).
+    destruct (get s c) as [cl|] eqn:Hc; [|reflexivity]. cbn [option_map cluster_reply cl_consumer cl_broker].
+    rewrite get_dg_cons_topic by exact Ht. destruct (get (cl_consumer cl) g) as [grp|] eqn:Hg; [|reflexivity].
+    pose proof (Habs _ _ Hc Hg) as Hnone. unfold drops. rewrite Hnone, andb_false_r, (remove_absent _ _ Hnone).
+    destruct grp; reflexivity.
+  - intros t' x. destruct (Hu t') as [_ Hx]. rewrite Hx. split; [tauto|]. intros H. split; [exact H|]. intros -> ->.
+    rewrite (obs_cluster _ _ s (FetchConsumersForTopic c t) c eq_refl eq_refl) in H.
+    destruct (get s c) as [cl|] eqn:Hc; [|contradiction]. cbn [cluster_reply names] in H.
+    destruct Hwf as [_ Hall]. destruct (Hall _ _ Hc) as [_ [Hnd _]]. apply (in_for_topic _ _ _ Hnd) in H.
+    destruct H as [v [Hv Hne]]. apply Hne. exact (Habs _ _ Hc Hv).
 Qed.
 
-(* ... but a group WITHOUT topics (here: created by an owner update for a topic the brokers do not know) is dropped from
-   the consumer list by a delete-group-topic that names a topic it never had *)
+(* before the repair (documentation): deleteGroup dropped the group whenever no topic was left after the delete, also when the
+   named topic was not one of its topics - an owner-only group without topics was unlisted by deleting a topic it never had *)
+Definition delete_group_before_fix (st : state) (c g t : Z) : outcome :=
+  match get st c with
+  | None => Done st RNone
+  | Some cl =>
+      match get (cl_consumer cl) g with
+      | Some grp =>
+          if t =? 0 then Done (set st c (mkCluster (cl_broker cl) (remove (cl_consumer cl) g))) RNone
+          else match remove (g_topics grp) t with
+               | [] => Done (set st c (mkCluster (cl_broker cl) (remove (cl_consumer cl) g))) RNone
+               | tops => Done (set st c (mkCluster (cl_broker cl) (set (cl_consumer cl) g (mkCgroup tops (g_last grp))))) RNone
+               end
+      | None => Done st RNone
+      end
+  end.
 Definition fg_cf : config := mkConfig 3 1000 0 (fun _ => true).
 Definition fg_state : state :=
   match run fg_cf (init_state [1]) [(1600000000, SetConsumerOwner 1 1 7 0 1 1)] with Some (s, _) => s | None => [] end.
 
-Theorem delete_foreign_topic_unlists_group_refuted :
-  exists cf cls h s reps now c g t cl grp,
-    NoDup cls /\ run cf (init_state cls) h = Some (s, reps) /\ t <> 0 /\
-    get s c = Some cl /\ get (cl_consumer cl) g = Some grp /\ get (g_topics grp) t = None /\
-    In g (names (obs cf now s (FetchConsumers c))) /\
-    ~ In g (names (obs cf now (after cf now s (DeleteGroup c g t)) (FetchConsumers c))).
+Theorem delete_foreign_topic_unlists_group_before_fix :
+  run fg_cf (init_state [1]) [(1600000000, SetConsumerOwner 1 1 7 0 1 1)] = Some (fg_state, [RNone]) /\
+  absent_group_topic fg_state 1 1 5 /\
+  names (obs fg_cf 1600000000 fg_state (FetchConsumers 1)) = [1] /\
+  (exists st', delete_group_before_fix fg_state 1 1 5 = Done st' RNone /\
+               names (obs fg_cf 1600000000 st' (FetchConsumers 1)) = []) /\
+  names (obs fg_cf 1600000000 (after fg_cf 1600000000 fg_state (DeleteGroup 1 1 5)) (FetchConsumers 1)) = [1].
 Proof.
-  exists fg_cf, [1], [(1600000000, SetConsumerOwner 1 1 7 0 1 1)], fg_state, [RNone], 1600000000, 1, 1, 5.
-  destruct (get fg_state 1) as [cl|] eqn:Hc; [|vm_compute in Hc; discriminate].
-  destruct (get (cl_consumer cl) 1) as [grp|] eqn:Hg; [|vm_compute in Hc; injection Hc as <-; vm_compute in Hg; discriminate].
-  exists cl, grp. split; [repeat constructor; intros []|]. split; [vm_compute; reflexivity|]. split; [discriminate|].
-  split; [first [reflexivity|exact Hc]|]. split; [first [reflexivity|exact Hg]|].
-  vm_compute in Hc. injection Hc as <-. vm_compute in Hg. injection Hg as <-.
-  split; [reflexivity|]. split; [vm_compute; tauto|]. vm_compute. tauto.
+  split; [vm_compute; reflexivity|]. split.
+  - intros cl grp Hc Hg. vm_compute in Hc. injection Hc as <-. vm_compute in Hg. injection Hg as <-. reflexivity.
+  - split; [vm_compute; reflexivity|]. split; [eexists; split; vm_compute; reflexivity|vm_compute; reflexivity].
 Qed.
 
 (* 11.3 storage's acceptConsumerGroup as a function of the four booleans (list set?, pattern matches?) ----------------------- *)
